@@ -25,6 +25,7 @@ use crate::transport::FramedTransport;
 use crate::types::Creation;
 use bytes::{BufMut, BytesMut};
 use erltf::decoder::AtomCache;
+use erltf::errors::DecodeError;
 use erltf::types::{Atom, ExternalPid, ExternalReference};
 use erltf::{OwnedTerm, decoder};
 use std::time::Duration;
@@ -476,6 +477,10 @@ impl Connection {
                     "Fragment header: seq={}, frag={}/{}",
                     header.sequence_id, header.fragment_id, header.fragment_id
                 );
+
+                if remaining.len() < header.num_atom_cache_refs as usize {
+                    return Err(Error::Decode(DecodeError::UnexpectedEof));
+                }
 
                 let atom_cache_data = if header.num_atom_cache_refs > 0 {
                     Some(remaining[..header.num_atom_cache_refs as usize].to_vec())
